@@ -48,6 +48,7 @@ pub fn plan_of(d: &PlanDesc) -> Plan {
                             props.push(("R".into(), PVal::Ref(Tgt::Node((i + 1) % n))));
                             props.push(("Sh".into(), PVal::Shared(if i % 2 == 0 { b"even".to_vec() } else { b"odd-content".to_vec() })));
                             props.push(("C".into(), PVal::V(Variant::Content(if i % 2 == 0 { Content::none() } else { Content::from_uri(format!("rbxassetid://{}", i)) }))));
+                            props.push(("Co".into(), PVal::ContentObj(Tgt::Node((i + n - 1) % n))));
                         }
                         "Part" => {
                             let mut tags = Tags::new();
@@ -321,10 +322,7 @@ pub fn cases(tier: Tier) -> Vec<Case04> {
                 let mut c = code;
                 let classes: Vec<u8> = (0..n).map(|_| { let x = (c % 3) as u8; c /= 3; x }).collect();
                 // quick: one class pattern in three for n = 3
-                if tier == Tier::Quick && n == 3 && code % 3 != 0 {
-                    continue;
-                }
-                if tier == Tier::Thorough && n == 4 && code % 9 != 0 {
+                if tier == Tier::Thorough && n == 4 && code % 3 != 0 {
                     continue;
                 }
                 let pd = PlanDesc::Topo { parents: parents.clone(), classes };
